@@ -13,7 +13,7 @@ EXTRA_MODULES = ['PyhmsVerif.Props.EngineDE']
 LEVEL = 'proof'
 LEVEL_TEXT = 'Theorem C11_chain: in every reachable state, for every deme and every consecutive pair of generations (G, G-prime) of its flattened history — also inside a metaepoch of several generations — each individual of G-prime belonged to G (same genome and fitness) or was evaluated while G-prime was being made (or carries the sentinel of a refused request). Inductive over all event sequences; the pending generations of the metaepoch in progress are part of the invariant. Tie: trace refinement re-checks genOk on every real generation with the parents the model threaded (finding D2 is rejected at the first non-chaining generation) + direct monitor joining histories with the time-stamped call log. ENGINE LEVEL (Model/Engine.lean, Props/EngineDE.lean): one whole generation of DE.run / SHADE.run is in the model, deterministic given the generator draws (donor arithmetic in binary64, reflect repair, crossover mask incl. the row-zeroing quirk, fitness carry-over, which rows are evaluated, replacement), and is diffed bit-exactly against the real engines with recorded draws: deGen_next_mem — every individual of the new generation is its row parent or its row trial, and every trial is computed from the parent generation only.'
 LEVEL_NOTE = 'Trusted: Lean kernel + standard axioms; the hand-written tree model is tied to the code by trace refinement on sampled runs (the model refuses a generation that does not chain, a stored individual that was never evaluated, an iterate scipy never evaluated); numerical engines and objective values are environment; monitors trusted as failing-input search. The ghost list evald (requests issued while a generation was made) is part of the model state; the tracer attributes objective calls to generations by the GSC consults between them.'
-TECHNIQUE = "trace refinement against the Lean tree model (Tree.step re-executes real runs) + direct monitors"
+TECHNIQUE = "Lean 4 theorems (inductive invariants of the tree machine Tree.step, proved for all configurations and event sequences) tied to the code by trace refinement (Tree.step re-executes real runs; engine generations replayed bit-exactly by the engine model) + direct monitors as failing-input search"
 RULE = "case = one traced run of a random configuration (1-3 levels, engine per level from the full list, every shipped GSC/LSC kind plus user-defined ones, both stock sprout mechanisms and user-composed chains, hibernation on/off, both directions, decimal boxes, optional cutoff/precision/stats wrappers, shared or per-level problems); non-trivial = run with >= 2 demes and >= 2 metaepochs; distinct by configuration hash"
 ASSUMPTIONS = ["objective is deterministic and never returns NaN", "runs are capped at 12 metaepochs by a user-level composite stop condition"]
 FORCE = None
